@@ -72,7 +72,8 @@ Definition compact (np nl ns : nat) (st : state) : state :=
      lwoken := tab nl false (lwoken st);
      scalls := tab ns fresh_scall (scalls st);
      swoken := tab ns false (swoken st);
-     sbox := tab ns empty_box (sbox st) |}.
+     sbox := tab ns empty_box (sbox st);
+     spend := tab ns None (spend st) |}.
 
 Definition cstep (np nl ns : nat) (st : state) (a : action) : state := compact np nl ns (step st a).
 
@@ -80,13 +81,21 @@ Definition cstep (np nl ns : nat) (st : state) (a : action) : state := compact n
    normally until one of its passes has something to send; it then stays
    parked inside strm.Send (between two lock regions: its pass is complete in
    the model, it takes no further action) until the script opens the gate. *)
-Record gates := { g_al : list nat; g_as : list nat; g_pl : list nat; g_ps : list nat }.
+Record gates := { g_al : list nat; g_as : list nat;
+  g_pl : list (nat * nat); g_ps : list (nat * nat) (* parked call, length of its output before the pass that parked it *) }.
 Definition no_gates : gates := {| g_al := []; g_as := []; g_pl := []; g_ps := [] |}.
+Definition parked (c : nat) (l : list (nat * nat)) : bool := memb c (map fst l).
+Fixpoint prelen (c : nat) (l : list (nat * nat)) : option nat :=
+  match l with
+  | [] => None
+  | (c', n) :: l' => if c =? c' then Some n else prelen c l'
+  end.
+Definition unpark (c : nat) (l : list (nat * nat)) : list (nat * nat) := filter (fun x => negb (fst x =? c)) l.
 
 Definition next_internal_g (nl ns : nat) (g : gates) (st : state) : option action :=
-  match first_some (fun c => if memb c (g_pl g) then None else linternal st c) (seq 0 nl) with
+  match first_some (fun c => if parked c (g_pl g) then None else linternal st c) (seq 0 nl) with
   | Some a => Some a
-  | None => first_some (fun c => if memb c (g_ps g) then None else sinternal st c) (seq 0 ns)
+  | None => first_some (fun c => if parked c (g_ps g) then None else sinternal st c) (seq 0 ns)
   end.
 
 (* after an internal action of an armed call that produced output the call is parked *)
@@ -94,10 +103,10 @@ Definition park (g : gates) (st st' : state) (a : action) : gates :=
   match a with
   | ListenIter c _ _ =>
     if memb c (g_al g) && (length (lc_out (lcalls st c)) <? length (lc_out (lcalls st' c)))
-    then {| g_al := g_al g; g_as := g_as g; g_pl := c :: g_pl g; g_ps := g_ps g |} else g
+    then {| g_al := g_al g; g_as := g_as g; g_pl := (c, length (lc_out (lcalls st c))) :: g_pl g; g_ps := g_ps g |} else g
   | SessIter c =>
     if memb c (g_as g) && (length (sc_out (scalls st c)) <? length (sc_out (scalls st' c)))
-    then {| g_al := g_al g; g_as := g_as g; g_pl := g_pl g; g_ps := c :: g_ps g |} else g
+    then {| g_al := g_al g; g_as := g_as g; g_pl := g_pl g; g_ps := (c, length (sc_out (scalls st c))) :: g_ps g |} else g
   | _ => g
   end.
 
@@ -128,7 +137,22 @@ Definition count_alive (nl ns : nat) (st : state) : nat :=
   length (filter (fun c => alive (sc_st (scalls st c))) (seq 0 ns)).
 
 (* scripted operations: relay actions, or arming/opening the gate of a stream *)
-Inductive sop := Act (a : action) | GateL (c : nat) | GateS (c : nat) | OpenL (c : nat) | OpenS (c : nat).
+Inductive sop := Act (a : action) | GateL (c : nat) | GateS (c : nat) | OpenL (c : nat) | OpenS (c : nat)
+| AbortL (c : nat)                   (* context cancelled while the call is parked in Send: Send fails, the call returns *)
+| AbortS (c : nat) (cancel : bool).  (* same for a Session call; cancel=false: the stream broke (Recv and Send fail) *)
+
+(* A Send that fails: the outputs of the pass that was parked were never
+   delivered, the call returns the error and runs its cleanup. (The model merges
+   the Sends into the pass; a failing Send is expressed here, in the
+   correspondence, by removing the undelivered outputs.) *)
+Definition trunc_l (c n : nat) (st : state) : state :=
+  let k := lcalls st c in
+  put_lcall c {| lc_st := lc_st k; lc_p := lc_p k; lc_t := lc_t k; lc_n := lc_n k; lc_sent := lc_sent k;
+                 lc_out := firstn n (lc_out k) |} st.
+Definition trunc_s (c n : nat) (st : state) : state :=
+  let k := scalls st c in
+  put_scall c {| sc_st := sc_st k; sc_src := sc_src k; sc_dst := sc_dst k; sc_isA := sc_isA k; sc_s := sc_s k;
+                 sc_dt := sc_dt k; sc_prev := sc_prev k; sc_perr := sc_perr k; sc_out := firstn n (sc_out k) |} st.
 
 Record acc := {
   a_st : state;
@@ -155,14 +179,23 @@ Definition apply_sop (np nl ns : nat) (g : gates) (st : state) (op : sop) : stat
   | Act a => (cstep np nl ns st a, g)
   | GateL c => (st, {| g_al := c :: g_al g; g_as := g_as g; g_pl := g_pl g; g_ps := g_ps g |})
   | GateS c => (st, {| g_al := g_al g; g_as := c :: g_as g; g_pl := g_pl g; g_ps := g_ps g |})
-  | OpenL c => (st, {| g_al := remove c (g_al g); g_as := g_as g; g_pl := remove c (g_pl g); g_ps := g_ps g |})
-  | OpenS c => (st, {| g_al := g_al g; g_as := remove c (g_as g); g_pl := g_pl g; g_ps := remove c (g_ps g) |})
+  | OpenL c => (st, {| g_al := remove c (g_al g); g_as := g_as g; g_pl := unpark c (g_pl g); g_ps := g_ps g |})
+  | OpenS c => (st, {| g_al := g_al g; g_as := remove c (g_as g); g_pl := g_pl g; g_ps := unpark c (g_ps g) |})
+  | AbortL c =>
+    let st1 := cstep np nl ns st (ListenEnd c) in
+    let st2 := match prelen c (g_pl g) with Some n => compact np nl ns (trunc_l c n st1) | None => st1 end in
+    (st2, {| g_al := remove c (g_al g); g_as := g_as g; g_pl := unpark c (g_pl g); g_ps := g_ps g |})
+  | AbortS c cancel =>
+    let st0 := if cancel then st else cstep np nl ns st (SessReq c 0 REof) in
+    let st1 := cstep np nl ns st0 (SessEnd c cancel) in
+    let st2 := match prelen c (g_ps g) with Some n => compact np nl ns (trunc_s c n st1) | None => st1 end in
+    (st2, {| g_al := g_al g; g_as := remove c (g_as g); g_pl := g_pl g; g_ps := unpark c (g_ps g) |})
   end.
 
 Definition do_op (np nl ns : nat) (a : acc) (op : sop) : acc :=
   let '(st0, g0) := apply_sop np nl ns (a_g a) (a_st a) op in
   let '(st, g) := settle 400 np nl ns g0 st0 in
-  let '(seen, segs) := zip3 (g_pl g) (seq 0 nl) (a_seen a) (a_segs a) st in
+  let '(seen, segs) := zip3 (map fst (g_pl g)) (seq 0 nl) (a_seen a) (a_segs a) st in
   {| a_st := st; a_g := g; a_seen := seen; a_segs := segs;
      a_sizes := (count_peers np st, count_sessions np st, count_alive nl ns st) :: a_sizes a |}.
 
@@ -193,7 +226,8 @@ Record relay_case := {
   rc_sess : list (option (nat * bool * bool)) }.   (* final, per key (p<q) in all_keys order *)
 
 Definition msg_eqb (a b : msg) : bool :=
-  (m_seqno a =? m_seqno b) && (m_tag a =? m_tag b) && Bool.eqb (m_ver a) (m_ver b) && (m_from a =? m_from b).
+  (m_seqno a =? m_seqno b) && (m_tag a =? m_tag b) && Bool.eqb (m_ver a) (m_ver b) && (m_from a =? m_from b) &&
+  (m_pk a =? m_pk b).
 Definition sresp_eqb (a b : sresp) : bool :=
   match a, b with
   | SOpened x, SOpened y => x =? y
